@@ -179,11 +179,19 @@ pub fn generate(a: &Args) -> Vec<Vec<String>> {
     let mut rng = Rng::new(a.seed);
     let mut cases = vec![];
     let variant = a.rest.iter().find(|x| *x == "ipc").map(|_| "ipc").unwrap_or("local");
+    let sat = a.rest.iter().any(|x| x == "sat");
+    fn lo(rng: &mut Rng) -> u64 { if rng.chance(10) { 0 } else { 1 } }
+    if a.exhaustive > 0 {
+        return exhaustive(a, variant);
+    }
     for _ in 0..a.cases {
-        let (mp, ms) = (rng.range(1, 3), rng.range(1, 3));
-        let b = rng.range(1, 3);
-        let h = rng.range(0, 3);
-        let r = rng.range(1, 3);
+        // limits 0..3 (0 is clamped to 1 by the builders); `sat`: small limits so that saturation is reached
+        let hi = if sat { 2 } else { 3 };
+        let l1 = lo(&mut rng); let l2 = lo(&mut rng);
+        let (mp, ms) = (rng.range(l1, 3), rng.range(l2, 3));
+        let l3 = lo(&mut rng); let b = rng.range(l3, hi);
+        let h = rng.range(0, hi);
+        let l4 = lo(&mut rng); let r = rng.range(l4, hi);
         let ov = rng.below(2);
         let e = rng.range(1, 3);
         let mut lines = vec![format!("new {variant} {mp} {ms} {b} {h} {r} {ov} {e}")];
@@ -194,47 +202,102 @@ pub fn generate(a: &Args) -> Vec<Vec<String>> {
         let (mut pubs, mut subs): (Vec<usize>, Vec<usize>) = (vec![], vec![]);
         let (mut np, mut ns) = (0usize, 0usize);
         let mut held: HashMap<usize, usize> = HashMap::new();
+        // weights: create pub, create sub, drop pub, drop sub, loan(+send), finish loan, recv, drop sample, update, probe, has
+        let wts: [u64; 11] = if sat { [4, 4, 1, 1, 36, 6, 26, 12, 2, 6, 2] } else { [10, 10, 4, 4, 27, 5, 22, 10, 2, 3, 3] };
+        let total: u64 = wts.iter().sum();
         for _ in 0..rng.range(3, a.len) {
-            let c = rng.below(100);
-            let l = if c < 10 || (pubs.is_empty() && c < 40) {
-                let p = np; np += 1; pubs.push(p);
-                format!("cpub {p} {}", rng.range(1, 3))
-            } else if c < 20 || (subs.is_empty() && c < 60) {
-                let s = ns; ns += 1; subs.push(s); held.insert(s, 0);
-                let bs = if rng.chance(50) { "-".to_string() } else { rng.range(1, b + 1).to_string() };
-                let hr = if rng.chance(50) { "-".to_string() } else { rng.range(0, h + 1).to_string() };
-                format!("csub {s} {bs} {hr}")
-            } else if c < 24 && !pubs.is_empty() {
-                let i = rng.below(pubs.len() as u64) as usize; let p = pubs.remove(i);
-                format!("dpub {p}")
-            } else if c < 28 && !subs.is_empty() {
-                let i = rng.below(subs.len() as u64) as usize; let s = subs.remove(i);
-                format!("dsub {s}")
-            } else if c < 55 && !pubs.is_empty() {
-                // loan + send in one go most of the time
-                let p = *rng.pick(&pubs);
-                let l = next_loan; next_loan += 1;
-                lines.push(format!("loan {p} {l}"));
-                if rng.chance(85) { tag += 1; format!("send {p} {l} {tag}") } else { loans.push((p, l)); continue }
-            } else if c < 60 && !loans.is_empty() {
-                let i = rng.below(loans.len() as u64) as usize; let (p, l) = loans.remove(i);
-                if rng.chance(50) { tag += 1; format!("send {p} {l} {tag}") } else { format!("dloan {p} {l}") }
-            } else if c < 82 && !subs.is_empty() {
-                let s = *rng.pick(&subs);
-                *held.get_mut(&s).unwrap() += 1;
-                format!("recv {s}")
-            } else if c < 92 && !subs.is_empty() {
-                let s = *rng.pick(&subs);
-                let k = rng.below(*held.get(&s).unwrap() as u64 + 1);
-                format!("dsample {s} {k}")
-            } else if c < 94 && !pubs.is_empty() {
-                format!("probe {}", rng.pick(&pubs))
-            } else if c < 97 {
-                if rng.chance(50) && !pubs.is_empty() { format!("upd p {}", rng.pick(&pubs)) } else if !subs.is_empty() { format!("upd s {}", rng.pick(&subs)) } else { continue }
-            } else if !subs.is_empty() { format!("has {}", rng.pick(&subs)) } else { continue };
+            let mut c = rng.below(total);
+            let mut k = 0;
+            while c >= wts[k] { c -= wts[k]; k += 1; }
+            if pubs.is_empty() && rng.chance(40) { k = 0 }
+            if subs.is_empty() && rng.chance(40) { k = 1 }
+            let l = match k {
+                0 => {
+                    let p = np; np += 1; pubs.push(p);
+                    { let l5 = lo(&mut rng); format!("cpub {p} {}", rng.range(l5, hi)) }
+                }
+                1 => {
+                    let s = ns; ns += 1; subs.push(s); held.insert(s, 0);
+                    let bs = if rng.chance(50) { "-".to_string() } else { rng.range(0, b + 1).to_string() };
+                    let hr = if rng.chance(50) { "-".to_string() } else { rng.range(0, h + 1).to_string() };
+                    format!("csub {s} {bs} {hr}")
+                }
+                2 if !pubs.is_empty() => {
+                    let i = rng.below(pubs.len() as u64) as usize; let p = pubs.remove(i);
+                    format!("dpub {p}")
+                }
+                3 if !subs.is_empty() => {
+                    let i = rng.below(subs.len() as u64) as usize; let s = subs.remove(i);
+                    format!("dsub {s}")
+                }
+                4 if !pubs.is_empty() => {
+                    // loan + send in one go most of the time
+                    let p = *rng.pick(&pubs);
+                    let l = next_loan; next_loan += 1;
+                    lines.push(format!("loan {p} {l}"));
+                    if rng.chance(if sat { 70 } else { 85 }) { tag += 1; format!("send {p} {l} {tag}") } else { loans.push((p, l)); continue }
+                }
+                5 if !loans.is_empty() => {
+                    let i = rng.below(loans.len() as u64) as usize; let (p, l) = loans.remove(i);
+                    if rng.chance(50) { tag += 1; format!("send {p} {l} {tag}") } else { format!("dloan {p} {l}") }
+                }
+                6 if !subs.is_empty() => {
+                    let s = *rng.pick(&subs);
+                    *held.get_mut(&s).unwrap() += 1;
+                    format!("recv {s}")
+                }
+                7 if !held.is_empty() => {
+                    // also samples of subscribers that were dropped already
+                    let ks: Vec<usize> = { let mut v: Vec<usize> = held.keys().cloned().collect(); v.sort(); v };
+                    let s = *rng.pick(&ks);
+                    let k = rng.below(*held.get(&s).unwrap() as u64 + 1);
+                    format!("dsample {s} {k}")
+                }
+                8 => {
+                    if rng.chance(50) && !pubs.is_empty() { format!("upd p {}", rng.pick(&pubs)) } else if !subs.is_empty() { format!("upd s {}", rng.pick(&subs)) } else { continue }
+                }
+                9 if !pubs.is_empty() => format!("probe {}", rng.pick(&pubs)),
+                10 if !subs.is_empty() => format!("has {}", rng.pick(&subs)),
+                _ => continue,
+            };
             lines.push(l);
         }
         cases.push(lines);
+    }
+    cases
+}
+
+/// every sequence of length `exhaustive` over a fixed alphabet, for a few small configurations
+fn exhaustive(a: &Args, variant: &str) -> Vec<Vec<String>> {
+    let mut cases = vec![];
+    // configurations: (maxpubs maxsubs B H R overflow E)
+    let configs = ["2 2 1 1 1 1 1", "2 2 1 1 1 0 1", "1 1 2 2 1 1 1", "2 1 2 0 2 0 1"];
+    let alphabet: Vec<String> = [
+        "cpub", "csub", "dpub", "dsub", "send 0", "send 1", "recv 0", "recv 1", "dsample 0 0", "dsample 1 0", "loan 0", "probe 0",
+    ].iter().map(|x| x.to_string()).collect();
+    for cfg in configs {
+        enumerate_seqs(&alphabet, a.exhaustive as usize, &mut |seq| {
+            // prefix: one publisher and one subscriber exist and one sample is on its way, then the enumerated suffix
+            let mut lines = vec![format!("new {variant} {cfg}"), "cpub 0 1".to_string(), "csub 0 - -".to_string(), "loan 0 1000".to_string(), "send 0 1000 1".to_string()];
+            let (mut np, mut ns, mut nl, mut tag) = (1usize, 1usize, 0usize, 1u64);
+            let (mut dp, mut ds) = (0usize, 0usize);
+            for &i in seq {
+                match alphabet[i].as_str() {
+                    "cpub" => { lines.push(format!("cpub {np} 2")); np += 1; }
+                    "csub" => { lines.push(format!("csub {ns} - -")); ns += 1; }
+                    "dpub" => { lines.push(format!("dpub {dp}")); dp += 1; }
+                    "dsub" => { lines.push(format!("dsub {ds}")); ds += 1; }
+                    "send 0" | "send 1" => {
+                        let p = if alphabet[i] == "send 0" { 0 } else { 1 };
+                        tag += 1;
+                        lines.push(format!("loan {p} {nl}")); lines.push(format!("send {p} {nl} {tag}")); nl += 1;
+                    }
+                    "loan 0" => { lines.push(format!("loan 0 {nl}")); nl += 1; }
+                    x => lines.push(x.to_string()),
+                }
+            }
+            cases.push(lines);
+        });
     }
     cases
 }
